@@ -3,6 +3,7 @@
   Property theorems only; helper lemmas live in CedarProofs/{Prefix,Roundtrip}.lean.
 -/
 import CedarProofs.Roundtrip
+import CedarProofs.CodecStr
 
 namespace Cedar.C01
 
@@ -142,6 +143,37 @@ theorem write_emits_buffer (s s' : Stream) (d : Bytes) (fs : List WireFrame)
     · simp only [Except.ok.injEq, Prod.mk.injEq] at h
       obtain ⟨rfl, rfl⟩ := h
       left; exact ⟨rfl, rfl⟩
+
+/-- **typed_put_any_length** (with C14's `int_char_frames_fit` / `Fits`): a frame whose payload
+    is within the typed layer's per-mode bound (`MaxFrameSize`, minus 32 bytes of AES-GCM room on an
+    encrypting stream) is always accepted by `sendMessageWithEnd` — so the typed layer's own
+    splitting never produces a frame the sender (or, by `send_accept_recv_accept`, the receiver)
+    rejects for its size. -/
+theorem typed_frame_accepted (s : Stream) (data : Bytes) (flag : Nat)
+    (hlen : data.length ≤ maxFramePayload s.crypting) (hctr : s.encCtr ≠ counterLimit) :
+    ∃ s' f, s.sendFrame data flag = .ok (s', f) := by
+  have hmax : maxFrameSize = 1048576 := rfl
+  have hmsg : maxMessageSize = 1048576 := rfl
+  unfold Stream.sendFrame
+  have h1 : ¬ data.length > maxMessageSize := by
+    unfold maxFramePayload gcmRoom at hlen; split at hlen <;> omega
+  rw [if_neg h1]
+  cases hk : s.key with
+  | none => exact ⟨_, _, rfl⟩
+  | some k =>
+    cases he : s.encrypted with
+    | false => exact ⟨_, _, rfl⟩
+    | true =>
+      simp only
+      have hc : s.crypting = true := by simp [Stream.crypting, hk, he]
+      rw [hc] at hlen
+      have h2 : ¬ (data.length + tagLen + (if s.encCtr = 0 then ivLen else 0) > maxMessageSize) := by
+        unfold maxFramePayload gcmRoom at hlen
+        simp only [if_true] at hlen
+        unfold tagLen ivLen
+        split <;> omega
+      rw [if_neg h2, if_neg hctr]
+      exact ⟨_, _, rfl⟩
 
 /-! Non-vacuity (tests, not the claim): the band around the limit. -/
 example : ((({} : Stream).setKey 1 ⟨0, []⟩).sendFrame (List.replicate 10 0) 1).isOk = true := by decide
